@@ -130,6 +130,7 @@ func main() {
 	coldStart = *cold
 	if !coldStart {
 		initReFn()
+		initLibraryErrors()
 	}
 	if *prop == "C19" {
 		loadC19(*seed, *expectFile)
